@@ -31,51 +31,273 @@ package cyclist
 //@ macro cyclistOK(c) = c.rAbsorb == 136 && c.rSqueeze == 136 && (c.mode == cyclist.Hash || c.mode == cyclist.Key)
 
 //@ func (c *Cyclist) InitializeEmpty()
+//@   property C13
 //@   assume transcript semantics (byte level: C13)
 //@   modifies *c, c.gh_tr
 //@   ensures cyclistOK(c) && c.mode == cyclist.Hash && c.gh_tr == trEmpty()
+// (C13, proved) the empty state: all-zero, phase up, hash mode, hash rates
+//@   proves c.phase == cyclist.Up && c.mode == cyclist.Hash && c.rAbsorb == 136 && c.rSqueeze == 136 && (forall j int :: 0 <= j && j < 25 ==> c.s[j] == 0)
+//@   loop 1
+//@     invariant 0 <= i && i <= 25 && (forall j int :: 0 <= j && j < i ==> c.s[j] == 0) && c.phase == cyclist.Up && c.mode == cyclist.Hash && c.rAbsorb == 136 && c.rSqueeze == 136
 
 //@ func (c *Cyclist) Initialize(key []byte, id []byte, counter []byte)
+//@   property C13
 //@   assume transcript semantics (byte level: C13)
 //@   requires len(key) == 0 || len(key) + len(id) < 136
 //@   modifies *c, c.gh_tr
 //@   ensures cyclistOK(c) && (c.mode == cyclist.Key <==> len(key) > 0)
 //@   ensures c.gh_tr == (len(key) > 0 ? trKeyed(bytes(key), bytes(id), bytes(counter)) : trEmpty())
+// (C13, proved) Initialize starts from the empty state in the up phase whatever the object held before; with a key
+// it then runs absorbKey on exactly that state (absorbKey's precondition, proved at the call)
+//@   proves len(key) == 0 ==> c.phase == cyclist.Up && c.mode == cyclist.Hash && c.rAbsorb == 136 && c.rSqueeze == 136 && (forall j int :: 0 <= j && j < 25 ==> c.s[j] == 0)
+//@   proves len(key) > 0 ==> callcount(cyclist.Cyclist.absorbKey) == 1 && same(argof(cyclist.Cyclist.absorbKey, key), key) && same(argof(cyclist.Cyclist.absorbKey, id), id) && same(argof(cyclist.Cyclist.absorbKey, counter), counter)
+//@   loop 1
+//@     invariant 0 <= i && i <= 25 && (forall j int :: 0 <= j && j < i ==> c.s[j] == 0) && c.phase == cyclist.Up && c.mode == cyclist.Hash && c.rAbsorb == 136 && c.rSqueeze == 136
 
 //@ func (c *Cyclist) Absorb(x []byte)
+//@   property C13
 //@   assume transcript semantics (byte level: C13)
 //@   requires cyclistOK(c)
 //@   modifies *c, c.gh_tr
 //@   ensures cyclistOK(c) && c.mode == old(c.mode) && c.gh_tr == trAbsorb(old(c.gh_tr), bytes(x))
+// (C13, proved) Absorb(X) = AbsorbAny(X, Rabsorb, 03)
+//@   proves c.phase == cyclist.Down && c.s == absorbS(old(c.phase), c.mode, old(c.s), arr(x), off(x), len(x), 136, uint8(3))
 
 //@ func (c *Cyclist) Squeeze(y []byte)
+//@   property C13
 //@   assume transcript semantics (byte level: C13)
 //@   requires cyclistOK(c)
 //@   modifies *c, c.gh_tr, y[:]
 //@   ensures cyclistOK(c) && c.mode == old(c.mode) && c.gh_tr == trSqueeze(old(c.gh_tr), len(y)) && bytes(y) == sqBytes(old(c.gh_tr), len(y))
+// (C13, proved) Squeeze(l) = SqueezeAny(l, 40)
+//@   proves c.phase == cyclist.Up && c.s == squeezeRestS(c.mode, upS(c.mode, old(c.s), uint8(64)), len(y) - (len(y) < 136 ? len(y) : 136), 136)
+//@   proves len(y) <= 136 ==> bytes(y) == stOut(upS(c.mode, old(c.s), uint8(64)), len(y))
 
 //@ func (c *Cyclist) SqueezeKey(y []byte)
+//@   property C13
 //@   assume transcript semantics (byte level: C13)
 //@   requires cyclistOK(c) && c.mode == cyclist.Key
 //@   modifies *c, c.gh_tr, y[:]
 //@   ensures cyclistOK(c) && c.mode == cyclist.Key && c.gh_tr == trSqueezeKey(old(c.gh_tr), len(y)) && bytes(y) == skBytes(old(c.gh_tr), len(y))
+// (C13, proved) SqueezeKey(l) = SqueezeAny(l, 20)
+//@   proves c.phase == cyclist.Up && c.s == squeezeRestS(c.mode, upS(c.mode, old(c.s), uint8(32)), len(y) - (len(y) < 136 ? len(y) : 136), 136)
+//@   proves len(y) <= 136 ==> bytes(y) == stOut(upS(c.mode, old(c.s), uint8(32)), len(y))
 
 //@ func (c *Cyclist) Encrypt(ciphertext []byte, plaintext []byte)
+//@   property C13
 //@   assume transcript semantics (byte level: C13)
-//@   requires cyclistOK(c) && c.mode == cyclist.Key && len(ciphertext) >= len(plaintext)
+//@   requires cyclistOK(c) && c.mode == cyclist.Key && len(ciphertext) >= len(plaintext) && ref(ciphertext) != ref(plaintext)
 //@   modifies *c, c.gh_tr, ciphertext[:]
 //@   ensures cyclistOK(c) && c.mode == cyclist.Key && c.gh_tr == trEncrypt(old(c.gh_tr), old(bytes(plaintext)))
 //@   ensures bytes(ciphertext[:len(plaintext)]) == ctBytes(old(c.gh_tr), old(bytes(plaintext)))
+// (C13, proved) Encrypt(P) = Crypt(P, false): the state absorbs the plaintext
+//@   proves c.phase == cyclist.Down && c.s == cryptS(c.mode, old(c.s), old(arr(plaintext)), off(plaintext), len(plaintext), uint8(128), false)
+//@   proves len(plaintext) <= 136 ==> bytes(ciphertext[:len(plaintext)]) == stXor(upS(c.mode, old(c.s), uint8(128)), bytes(plaintext))
 
 //@ func (c *Cyclist) Decrypt(plaintext []byte, ciphertext []byte)
+//@   property C13
 //@   assume transcript semantics (byte level: C13)
-//@   requires cyclistOK(c) && c.mode == cyclist.Key && len(plaintext) >= len(ciphertext)
+//@   requires cyclistOK(c) && c.mode == cyclist.Key && len(plaintext) >= len(ciphertext) && ref(plaintext) != ref(ciphertext)
 //@   modifies *c, c.gh_tr, plaintext[:]
 //@   ensures cyclistOK(c) && c.mode == cyclist.Key && c.gh_tr == trDecrypt(old(c.gh_tr), old(bytes(ciphertext)))
 //@   ensures bytes(plaintext[:len(ciphertext)]) == ptBytes(old(c.gh_tr), old(bytes(ciphertext)))
+// (C13, proved) Decrypt(C) = Crypt(C, true): the state absorbs the recovered plaintext
+//@   proves c.phase == cyclist.Down && c.s == cryptS(c.mode, old(c.s), old(arr(ciphertext)), off(ciphertext), len(ciphertext), uint8(128), true)
+//@   proves len(ciphertext) <= 136 ==> bytes(plaintext[:len(ciphertext)]) == stXor(upS(c.mode, old(c.s), uint8(128)), bytes(ciphertext))
 
 //@ func (c *Cyclist) Ratchet()
+//@   property C13
 //@   assume transcript semantics (byte level: C13)
 //@   requires cyclistOK(c) && c.mode == cyclist.Key
 //@   modifies *c, c.gh_tr
 //@   ensures cyclistOK(c) && c.mode == cyclist.Key && c.gh_tr == trRatchet(old(c.gh_tr))
+// (C13, proved) Ratchet() = AbsorbAny(SqueezeAny(32, 10), Rabsorb, 00) on one 32-byte buffer
+//@   proves callcount(cyclist.Cyclist.squeezeAny) == 1 && callcount(cyclist.Cyclist.absorbAny) == 1 && seqof(cyclist.Cyclist.squeezeAny) < seqof(cyclist.Cyclist.absorbAny) &&
+//@        argof(cyclist.Cyclist.squeezeAny, cu) == 16 && len(argof(cyclist.Cyclist.squeezeAny, y)) == 32 && same(argof(cyclist.Cyclist.absorbAny, x), argof(cyclist.Cyclist.squeezeAny, y)) &&
+//@        argof(cyclist.Cyclist.absorbAny, cd) == 0 && argof(cyclist.Cyclist.absorbAny, r) == 136
+
+// ===========================================================================
+// C13 (and C02's byte coverage): the state is 200 bytes, little endian in 25 lanes.
+// laneOf(a, o, n, j): lane j of the byte string a[o:o+n] zero-padded to 200 bytes.
+// ===========================================================================
+//@ spec laneOf(a bytearr, o int, n int, j int) uint64 =
+//@     (8*j+0 < n ? uint64(a[o+8*j+0]) : 0) | (8*j+1 < n ? uint64(a[o+8*j+1]) << 8 : 0) | (8*j+2 < n ? uint64(a[o+8*j+2]) << 16 : 0) | (8*j+3 < n ? uint64(a[o+8*j+3]) << 24 : 0) |
+//@     (8*j+4 < n ? uint64(a[o+8*j+4]) << 32 : 0) | (8*j+5 < n ? uint64(a[o+8*j+5]) << 40 : 0) | (8*j+6 < n ? uint64(a[o+8*j+6]) << 48 : 0) | (8*j+7 < n ? uint64(a[o+8*j+7]) << 56 : 0)
+// byteAt(s, i): byte i of the state
+//@ spec byteAt(s [25]uint64, i int) uint8 = uint8(s[i >> 3] >> (uint64(i & 7) << 3))
+
+// XOR one byte into the state at a byte offset: only that byte changes.
+//@ func (c *Cyclist) stateAddByte(b byte, offset int)
+//@   property C13 C02
+//@   requires 0 <= offset && offset < 200
+//@   modifies c.s
+//@   ensures forall j int :: 0 <= j && j < 25 ==> c.s[j] == old(c.s)[j] ^ (j == offset >> 3 ? uint64(b) << (uint64(offset & 7) << 3) : 0)
+// (abstraction, justified by the clause above: the new state is a function of the old state, b and offset)
+//@   defines c.s == stAddByte(old(c.s), b, offset)
+
+// XOR a byte string into the state: EVERY byte of it (up to the 200-byte state) is added, lane by lane.
+//@ func (c *Cyclist) stateAddBytes(b []byte)
+//@   property C13 C02
+//@   persite
+//@   modifies c.s
+//@   ensures forall j int :: 0 <= j && j < 25 ==> c.s[j] == old(c.s)[j] ^ laneOf(arr(b), off(b), len(b), j)
+// (abstraction, justified by the clause above: the new state is a function of the old state and the bytes of b)
+//@   defines c.s == stAddBytes(old(c.s), bytes(b))
+//@   loop 1
+//@     invariant 0 <= stateIdx && stateIdx <= 25 && i == 8 * stateIdx && length == len(b) && (stateIdx > 0 ==> i < length) && length > 0
+//@     invariant forall j int :: 0 <= j && j < 25 ==> c.s[j] == old(c.s)[j] ^ laneOf(arr(b), off(b), i, j)
+//@   loop 2
+//@     invariant 0 <= stateIdx && stateIdx < 25 && 0 <= shift && shift <= 64 && shift & 7 == 0 && i == 8 * stateIdx + (shift >> 3) && length == len(b) && i < length
+//@     invariant forall j int :: 0 <= j && j < 25 ==> c.s[j] == old(c.s)[j] ^ laneOf(arr(b), off(b), i, j)
+
+// Copy the first len(out) state bytes (at most 200) out, little endian lane by lane.
+//@ func (c *Cyclist) stateCopyOut(out []byte)
+//@   property C13 C02
+//@   persite
+//@   modifies out[:]
+//@   ensures forall k int :: 0 <= k && k < len(out) && k < 200 ==> out[k] == byteAt(c.s, k)
+//@   ensures forall k int :: 200 <= k && k < len(out) ==> out[k] == old(out[k])
+// (abstraction: for at most 200 bytes the output is a function of the state and the length)
+//@   defines len(out) <= 200 ==> bytes(out) == stOut(c.s, len(out))
+//@   loop 1
+//@     invariant 0 <= stateIdx && stateIdx <= 25 && i == 8 * stateIdx && length == len(out) && (stateIdx > 0 ==> i <= length)
+//@     invariant forall k int :: 0 <= k && k < i ==> out[k] == byteAt(c.s, k)
+//@     invariant forall k int :: i <= k && k < len(out) ==> out[k] == old(out[k])
+//@   loop 2
+//@     invariant 0 <= stateIdx && stateIdx < 25 && 0 <= shift && shift <= 64 && shift & 7 == 0 && i == 8 * stateIdx + (shift >> 3) && length == len(out) && i <= length
+//@     invariant forall k int :: 0 <= k && k < i ==> out[k] == byteAt(c.s, k)
+//@     invariant forall k int :: i <= k && k < len(out) ==> out[k] == old(out[k])
+
+// out[k] = state byte k XOR in[k] for every k < len(in) (at most 200).  The two slices must not overlap:
+// the function writes out[k] before it reads in[k].
+//@ func (c *Cyclist) stateCopyAndAddBytes(in []byte, out []byte)
+//@   property C13 C02
+//@   persite
+//@   requires len(out) >= len(in) && ref(in) != ref(out)
+//@   modifies out[:]
+//@   ensures forall k int :: 0 <= k && k < len(in) && k < 200 ==> out[k] == byteAt(c.s, k) ^ in[k]
+// (abstraction: for at most 200 bytes the output is a function of the state and the input bytes)
+//@   defines len(in) <= 200 ==> bytes(out[:len(in)]) == stXor(c.s, bytes(in))
+//@   loop 1
+//@     invariant 0 <= stateIdx && stateIdx <= 25 && i == 8 * stateIdx && length == len(in) && (stateIdx > 0 ==> i <= length)
+//@     invariant forall k int :: 0 <= k && k < i ==> out[k] == byteAt(c.s, k) ^ in[k]
+//@   loop 2
+//@     invariant 0 <= stateIdx && stateIdx < 25 && 0 <= shift && shift <= 64 && shift & 7 == 0 && i == 8 * stateIdx + (shift >> 3) && length == len(in) && i <= length
+//@     invariant forall k int :: 0 <= k && k < i ==> out[k] == byteAt(c.s, k) ^ in[k]
+
+// ---------------------------------------------------------------------------
+// The duplex calls against the Cyclist specification (Daemen, Hoffert, Peeters, Van Assche, Van Keer:
+// "Xoodyak, a lightweight cryptographic scheme", section 2.2, with f = 12-round Keccak-p[1600]).
+// The 200-byte state is abstracted to its lane array; three state functions are DEFINED by the verified
+// lane-level contracts above (add a byte string, add one byte, read out) and the permutation is an
+// uninterpreted function (the assembly / generic Keccak-p[1600,12] is not verified here).
+// ---------------------------------------------------------------------------
+//@ spec keccakP(s [25]uint64) [25]uint64
+//@ spec stAddBytes(s [25]uint64, x Bytes) [25]uint64
+//@ spec stAddByte(s [25]uint64, b uint8, o int) [25]uint64
+//@ spec stOut(s [25]uint64, n int) Bytes
+//@ spec stXor(s [25]uint64, x Bytes) Bytes
+
+//@ func keccakF1600(a *[25]uint64)
+//@   assume 12-round Keccak-p[1600] (amd64 assembly or the generic Go version): a function of the state alone
+//@   modifies *a
+//@   ensures *a == keccakP(old(*a))
+//@ func (c *Cyclist) f()
+//@   inline
+//@ func min(a int, b int) (m int)
+//@   inline
+
+// Down(X, cD): state ^= X || 01 || 00* || (cD & 01 in hash mode, cD otherwise); phase = down
+//@ macro downS(md, s, x, n, cd) = stAddByte(stAddByte(stAddBytes(s, x), 1, n), (md == cyclist.Hash ? cd & 1 : cd), 199)
+// Up(|Y|, cU): in keyed mode state ^= 00* || cU; state = f(state); phase = up; Y = first bytes of the state
+//@ macro upS(md, s, cu) = keccakP(md != cyclist.Hash ? stAddByte(s, cu, 199) : s)
+
+//@ func (c *Cyclist) down(x []byte, cd byte)
+//@   property C13
+//@   requires len(x) < 199 && (c.mode == cyclist.Hash || c.mode == cyclist.Key)
+//@   modifies c.s, c.phase
+//@   ensures c.phase == cyclist.Down && c.s == downS(c.mode, old(c.s), bytes(x), len(x), cd)
+//@ func (c *Cyclist) up(y []byte, cu byte)
+//@   property C13
+//@   requires (c.mode == cyclist.Hash || c.mode == cyclist.Key) && len(y) <= 200
+//@   modifies c.s, c.phase, y[:]
+//@   ensures c.phase == cyclist.Up
+//@   ensures c.s == upS(c.mode, old(c.s), cu)
+//@   ensures bytes(y) == stOut(c.s, len(y))
+
+// AbsorbAny(X, r, cD): for each block Xi of Split(X, r) [one empty block for the empty string]:
+//   if phase != up then Up(0, 00);  Down(Xi, cD for the first block, 00 afterwards)
+//@ spec rec absorbS(ph cyclist.Phase, md cyclist.Mode, s [25]uint64, a bytearr, o int, n int, r int, cd uint8) [25]uint64 =
+//@     let s1 = (ph != cyclist.Up ? upS(md, s, uint8(0)) : s) in
+//@     let k = (n < r ? n : r) in
+//@     let s2 = downS(md, s1, rng(a, o, k), k, cd) in
+//@     (n - k == 0 ? s2 : absorbS(cyclist.Down, md, s2, a, o + k, n - k, r, uint8(0)))
+
+//@ func (c *Cyclist) absorbAny(x []byte, r int, cd byte)
+//@   property C13
+//@   requires 0 < r && r < 199 && (c.mode == cyclist.Hash || c.mode == cyclist.Key)
+//@   modifies c.s, c.phase
+//@   ensures c.phase == cyclist.Down && c.s == absorbS(old(c.phase), c.mode, old(c.s), arr(x), off(x), len(x), r, cd)
+//@   loop 1
+//@     invariant 0 <= start && 0 <= xLen && start + xLen == len(x)
+//@     invariant absorbS(c.phase, c.mode, c.s, arr(x), off(x) + start, xLen, r, cd) == absorbS(old(c.phase), c.mode, old(c.s), arr(x), off(x), len(x), r, old(cd))
+
+// SqueezeAny(l, cU): Y = Up(min(l, Rsqueeze), cU); while |Y| < l: Down(empty, 00); Y = Y || Up(min(l - |Y|, Rsqueeze), 00)
+// (state only; each output block is stOut of the state after its Up - by up's contract)
+//@ spec rec squeezeRestS(md cyclist.Mode, s [25]uint64, n int, r int) [25]uint64 =
+//@     (n == 0 ? s : squeezeRestS(md, upS(md, downS(md, s, noBytesC(), 0, uint8(0)), uint8(0)), n - (n < r ? n : r), r))
+//@ spec noBytesC() Bytes
+//@ axiom C13.empty_bytes: forall a bytearr, o int :: rng(a, o, 0) == noBytesC()
+
+//@ func (c *Cyclist) squeezeAny(y []byte, cu byte)
+//@   property C13
+//@   requires 0 < c.rSqueeze && c.rSqueeze <= 199 && (c.mode == cyclist.Hash || c.mode == cyclist.Key)
+//@   modifies c.s, c.phase, y[:]
+//@   ensures c.phase == cyclist.Up
+//@   ensures c.s == squeezeRestS(c.mode, upS(c.mode, old(c.s), cu), len(y) - (len(y) < c.rSqueeze ? len(y) : c.rSqueeze), c.rSqueeze)
+// the first block handed out is the head of the state right after the first Up
+//@   ensures len(y) <= c.rSqueeze ==> bytes(y) == stOut(upS(c.mode, old(c.s), cu), len(y))
+//@   loop 1
+//@     invariant 0 <= yLen && 0 <= start && start + yLen == len(y) && c.phase == cyclist.Up
+//@     invariant len(y) <= c.rSqueeze ==> yLen == 0 && bytes(y) == stOut(upS(c.mode, old(c.s), old(cu)), len(y))
+//@     invariant squeezeRestS(c.mode, c.s, yLen, c.rSqueeze) == squeezeRestS(c.mode, upS(c.mode, old(c.s), old(cu)), len(y) - (len(y) < c.rSqueeze ? len(y) : c.rSqueeze), c.rSqueeze)
+
+// Crypt(I, decrypt): for each block Ii of Split(I, Rkout): Oi = Ii xor Up(|Ii|, cU for the first block, 00 afterwards);
+//   Pi = (decrypt ? Oi : Ii);  Down(Pi, 00).   State evolution (the absorbed block is always the PLAINTEXT):
+//@ spec rec cryptS(md cyclist.Mode, s [25]uint64, a bytearr, o int, n int, cu uint8, dec bool) [25]uint64 =
+//@     let k = (n < 136 ? n : 136) in
+//@     let su = upS(md, s, cu) in
+//@     let p = (dec ? stXor(su, rng(a, o, k)) : rng(a, o, k)) in
+//@     let sd = downS(md, su, p, k, uint8(0)) in
+//@     (n - k == 0 ? sd : cryptS(md, sd, a, o + k, n - k, uint8(0), dec))
+
+//@ func (c *Cyclist) crypt(out []byte, in []byte, decrypt bool)
+//@   property C13
+//@   requires len(out) >= len(in) && ref(in) != ref(out) && (c.mode == cyclist.Hash || c.mode == cyclist.Key)
+//@   modifies c.s, c.phase, out[:]
+//@   ensures c.phase == cyclist.Down && c.s == cryptS(c.mode, old(c.s), old(arr(in)), off(in), len(in), uint8(128), decrypt)
+// the first output block is the input block XOR the head of the state after the first Up
+//@   ensures len(in) <= 136 ==> bytes(out[:len(in)]) == stXor(upS(c.mode, old(c.s), uint8(128)), bytes(in))
+//@   loop 1
+//@     invariant 0 <= start && 0 <= ioLen && start + ioLen == len(in) && arr(in) == old(arr(in))
+//@     invariant len(in) <= 136 ==> start == 0 && upS(c.mode, c.s, cu) == upS(c.mode, old(c.s), uint8(128))
+//@     invariant cryptS(c.mode, c.s, arr(in), off(in) + start, ioLen, cu, decrypt) == cryptS(c.mode, old(c.s), arr(in), off(in), len(in), uint8(128), decrypt)
+
+// absorbKey runs on the empty state in the up phase (its only caller is Initialize): AbsorbKey(K, id, counter) =
+// mode keyed, keyed rates; AbsorbAny(K || id || enc8(|id|), Rabsorb, 02); if counter nonempty AbsorbAny(counter, 1, 00)
+//@ func (c *Cyclist) absorbKey(key []byte, id []byte, counter []byte)
+//@   property C13
+//@   requires len(key) + len(id) < 136 && c.phase == cyclist.Up && (forall j int :: 0 <= j && j < 25 ==> c.s[j] == 0)
+//@   modifies c.s, c.phase, c.mode, c.rAbsorb, c.rSqueeze
+//@   ensures c.mode == cyclist.Key && c.rAbsorb == 136 && c.rSqueeze == 136 && c.phase == cyclist.Down
+//@   ensures callcount(cyclist.Cyclist.absorbAny) == (len(counter) > 0 ? 2 : 1)
+//@   ensures len(counter) > 0 ==> same(argof(cyclist.Cyclist.absorbAny, x), counter) && argof(cyclist.Cyclist.absorbAny, r) == 1 && argof(cyclist.Cyclist.absorbAny, cd) == 0
+//@   ensures len(counter) == 0 ==> len(argof(cyclist.Cyclist.absorbAny, x)) == len(key) + len(id) + 1 && argof(cyclist.Cyclist.absorbAny, r) == 136 && argof(cyclist.Cyclist.absorbAny, cd) == 2
+
+// Staying in sync: XOR with the state head is an involution (by stateCopyAndAddBytes' byte-level contract: out[k] = state[k] ^ in[k]) ...
+//@ axiom C13.xor_involution: forall s [25]uint64, p Bytes :: stXor(s, stXor(s, p)) == p
+// ... hence a duplex that DECRYPTS the ciphertext block an equal duplex just produced ends in the same state (one block;
+// the multi-block case is the same step repeated - an induction the solvers do not do by themselves)
+//@ lemma C13.crypt_sync_one_block: forall md cyclist.Mode, s [25]uint64, a bytearr, o int, b bytearr, q int, n int ::
+//@     0 <= n && n <= 136 && rng(b, q, n) == stXor(upS(md, s, uint8(128)), rng(a, o, n)) ==>
+//@     cryptS(md, s, b, q, n, uint8(128), true) == cryptS(md, s, a, o, n, uint8(128), false)
